@@ -148,6 +148,7 @@ struct Runner {
 			log("permute", h, r, t, same_table(ctab(h), x.tw));
 		} else if (f == "convolve") {
 			uint32_t n = x.tw->get_ndim(); if (!n) return; double k[3] = {-0.25, 0.1, 0.4}; int dim = (int)(a % n); size_t nk = 2 + a % 2;
+			if (a == 2) nk = 1;                                       // a one-knot kernel: a translation of the table
 			if (a == 3) nk = (size_t)1 << 60;                        // a request that cannot be served: must come back as a failure
 			bool t = ok([&]() { x.tw->convolve(dim, k, nk); }); int r = splinetable_convolve(&x.c, dim, k, nk);
 			log("convolve", h, r, t, same_table(ctab(h), x.tw));
